@@ -218,7 +218,20 @@ fn build(input: &str, copies: usize, k: usize, r: &mut Rng, c: &Ctxt) -> Option<
                 others.push(format!("Signature={}", PLACEHOLDER));
             }
             // interleave the other parameters at random positions (relative order of the copies is what matters)
+            // now and then a long list: 12–45 further occurrences of the parameters that are not under test, each with the
+            // value it has anyway, anywhere in the list (the occurrence that counts may be the fiftieth field)
+            let pad = if r.chance(1, 5) {
+                12 + r.usize_below(34)
+            } else {
+                0
+            };
+            let same = others.clone();
             for o in others {
+                let p = r.usize_below(params.len() + 1);
+                params.insert(p, o);
+            }
+            for _ in 0..pad {
+                let o = same[r.usize_below(same.len())].clone();
                 let p = r.usize_below(params.len() + 1);
                 params.insert(p, o);
             }
@@ -669,6 +682,15 @@ fn shard(seed: u64, shard: u64, n: u64) -> Tally {
             continue;
         };
         cfg.now = c.t.plus_s(r.range(-300, 300));
+        if let Some(a) = wire.headers.iter().find(|h| h.0.eq_ignore_ascii_case(b"authorization")) {
+            let fields = a.1.iter().filter(|b| **b == b'=').count();
+            if fields > 16 {
+                t.count("authorization_lists_of_more_than_16_parameters");
+            }
+            if fields > 32 {
+                t.count("authorization_lists_of_more_than_32_parameters");
+            }
+        }
         // sign the request as received, assuming copy k is the effective one
         let Ok(req) = build_request(&wire) else {
             t.count("not_built_by_http");
@@ -780,11 +802,12 @@ pub fn run(tier: Tier) -> i32 {
         }
     }
     ctx.gate("(input, copies, position of the valid copy) cells decided", hit, cells);
+    ctx.gate("Authorization lists of more than 16 / more than 32 parameters (further occurrences of the parameters not under test)", tally.get("authorization_lists_of_more_than_16_parameters").min(tally.get("authorization_lists_of_more_than_32_parameters")), tier.n(500, 10_000));
     ctx.gate("both-carrier shapes refused at the carrier check", tally.get("both_carriers_refused"), tier.n(1000, 10_000));
     ctx.gate("token selection verified in the provider log", tally.get("token_selection_checked_in_provider_log"), tier.n(1000, 10_000));
     let rep = Report {
         level: "exploration",
-        rule: "For each duplicable authentication input (Authorization header; Credential / SignedHeaders / Signature inside it; X-Amz-Date header; Date next to X-Amz-Date; security-token header; each X-Amz-* query parameter; a token or date input of the carrier that authenticates next to 1–2 same-named inputs of the other carrier — parameter in the URL or in a folded body next to headers, headers next to presigned parameters — with other values) 2–3 copies with differing values in every order, exactly one copy being the one the signature is valid for (the request is signed *as received*, duplicates included, by the reference signer under the assumption that this copy is the effective one); both carriers present in four shapes (algorithm parameter in the URL / in a folded body, valid signature on either side). Oracle: the documented selection rules in the reference model + the provider event log (access key, token). Accept iff the valid copy is the documented one; both carriers always refused. Distinct = distinct decided cases by hash.".into(),
+        rule: "For each duplicable authentication input (Authorization header; Credential / SignedHeaders / Signature inside it; X-Amz-Date header; Date next to X-Amz-Date; security-token header; each X-Amz-* query parameter; a token or date input of the carrier that authenticates next to 1–2 same-named inputs of the other carrier — parameter in the URL or in a folded body next to headers, headers next to presigned parameters — with other values) 2–3 copies with differing values in every order (inside the Authorization header one list in five also carries 12–45 further occurrences of the other parameters, unchanged, so the copy that counts can be any field up to the fiftieth), exactly one copy being the one the signature is valid for (the request is signed *as received*, duplicates included, by the reference signer under the assumption that this copy is the effective one); both carriers present in four shapes (algorithm parameter in the URL / in a folded body, valid signature on either side). Oracle: the documented selection rules in the reference model + the provider event log (access key, token). Accept iff the valid copy is the documented one; both carriers always refused. Distinct = distinct decided cases by hash.".into(),
         assumptions: vec!["an X-Amz-* parameter occurring once in the URL and once in a folded body is executed but not judged (the property ranks occurrences within one place only)".into()],
         extra: J::obj().set("calibrated_vectors", J::i(pre.unwrap_or(0) as i64)),
     };
